@@ -107,6 +107,20 @@ CLAIMED = {
         "{default, no-default-features, all-features} x {dev, release} must be byte-identical to default-release and monitor-silent (quick: 3 extra configurations, thorough: all 5)."),
         note=TB + " rustc's layout of Option<LeanString> is observed, not proved.",
         technique="Coq: tag arithmetic over the regenerated LastByte table; build matrix with identical-trace comparison", design='§7 C20'),
+    'C16': dict(text=T("Theorems: C16_utf8_valid_iff — the Unicode table 3-7 automaton accepts exactly the valid texts; C16_from_utf8 — accepted bytes yield exactly that text; "
+        "C16_from_utf8_lossy — for EVERY chunk list utf8_chunks can produce and any capacity guess, the with_capacity/push_str/push(U+FFFD) loop never reaches UB and (absent allocation "
+        "failure) builds exactly the text the same loop builds in a String, including when replacement characters outgrow with_capacity(len); C16_from_utf16 likewise for the "
+        "per-char push loop of from_utf16 / from_utf16_lossy. std's decoders (str::from_utf8, utf8_chunks, char::decode_utf16) are the same code on both sides and are oracles. Tie: "
+        "the real from_utf8 / from_utf8_lossy / from_utf16 / from_utf16_lossy against String's on every sequence over a 20-byte-class alphabet up to length 5 (quick) / 6 (thorough) and an "
+        "8-class u16 alphabet up to length 6 / 7 plus damaged long inputs; the Coq automaton utf8_valid against std::str::from_utf8 on every sequence up to length 4 / 5."),
+        note=TB + " utf8_chunks and decode_utf16 are std code (oracles).",
+        technique="Coq: decoders as operation sequences refined to Spec (instances of the history theorem) + automaton/validity equivalence; exhaustive small-alphabet sweeps against String", design='§7 C16'),
+    'C19': dict(text=T("Theorems (thin by nature: the integration is four one-line wrappers): C19_visit_bytes_accepts_iff_valid — byte input is accepted exactly when it is valid UTF-8; "
+        "C19_from_str_is_transparent — visit_str / visit_borrowed_str / visit_bytes(valid) / Arbitrary yield exactly the given text; C19_serialize_sees_text — Serialize hands serde "
+        "exactly the abstract text. Tie: a crate built with --features serde,arbitrary compares serde_json output, JSON round trips, Str/BorrowedStr/String/Bytes/BorrowedBytes "
+        "deserializers (all byte sequences up to length 4 over the UTF-8 class alphabet through both bytes visitors) and arbitrary / arbitrary_take_rest / size_hint against String / &str."),
+        note=TB + " serde's, serde_json's and arbitrary's own machinery is not modelled.",
+        technique="Coq: wrappers over from_str / as_bytes; feature-enabled differential sweep against String", design='§7 C19'),
     'C14': dict(
         text=("Theorem (Coq, all inputs): for each of the 10 integer types of at most 64 bits (and hence their NonZero forms) and EVERY value z of "
               "the type, the model of the digit-count table + unrolled LUT writer returns exactly the decimal text of z, the table entry equals "
